@@ -22,7 +22,9 @@ P == Tab.n
 NPrec == Len(Tab.precs)
 Rnd(pi, v) == Tab.rnd[pi][v]
 SortedIdx(S) == SetToSortSeq(S, <)
+\* sorted trains; a spike time may be repeated (e.g. the pooled spikes of two units)
 ValidTrains == { SortedIdx(S) : S \in {Q \in SUBSET (1..P) : Cardinality(Q) <= MaxLen} }
+               \cup { <<v, v>> : v \in 1..P } \cup { <<v, v, w>> : v, w \in {u \in 1..P : MaxLen >= 3} }
 TrainPool == IF Sample = 0 THEN ValidTrains ELSE RandomSubset(Sample, ValidTrains) \cup {<<>>}
 NoPar == [pi |-> 1, ignore |-> TRUE, sorted |-> FALSE]
 Init == /\ trains = <<>> /\ par = NoPar /\ file = <<>> /\ edits = <<>> /\ loaded = <<>>
